@@ -12,7 +12,7 @@ use flsrc::search::Searcher;
 use refchess::{Kind, Pos};
 use serde_json::{json, Value};
 
-pub const RULE: &str = "(1) public API: positions from the C01 mixture plus discovered-check motifs (by ep capture removing two men from a line, by castling, by promotion / under-promotion), mover NOT in check: multiset(generate_quiescence_moves(p)) == { m legal : m captures (incl. ep) or promotes or the opponent's king is attacked after m }, computed entirely by the reference. (2) what the search actually iterates over: with recording switched on (hook, one inserted line after search_until_quiet has chosen its list) find_best_move(p, 1..2) is run and for every recorded quiescence node: if its mover is in check the list must be ALL reference-legal moves, else the set of (1); the recorded in-check flag must agree with the reference. Non-trivial = position has >=1 quiet checking move or >=1 discovered check, or is in check; distinct by FEN.";
+pub const RULE: &str = "(1) public API: positions from the C01 mixture plus discovered-check motifs (by ep capture removing two men from a line, by castling, by promotion / under-promotion), mover NOT in check: multiset(generate_quiescence_moves(p)) == { m legal : m captures (incl. ep) or promotes or the opponent's king is attacked after m }, computed entirely by the reference. (2) what the search actually iterates over: with recording switched on (hook, one inserted line after search_until_quiet has chosen its list) find_best_move(p, 1..2) is run and for every recorded quiescence node: if its mover is in check the list must be ALL reference-legal moves, else the set of (1); the recorded in-check flag must agree with the reference. (3) deep lines: full middlegame / game / pool positions searched to depth 1..4, or the quiescence search called directly (hook verif_quiesce) with a generated window around the static value, under a node cap; only nodes at least 10 plies below the horizon are recorded and judged as in (2) — the statement puts no bound on how far beyond the nominal depth the rule holds; the deepest level reached is reported. Non-trivial = position has >=1 quiet checking move or >=1 discovered check, or is in check; distinct by FEN.";
 
 fn classify(p: &Pos, stats: &mut Stats) -> bool {
     // quiet checking moves and discovered checks (the moved man does not itself attack the king)
@@ -80,6 +80,11 @@ fn part_api(bytes: &[u8], stats: &mut Stats) -> Verdict {
         2 => gen::g_motif_n(&mut s, 10),
         _ => gen::g_motif_n(&mut s, 11),
     };
+    judge_api(&p, stats)
+}
+
+fn judge_api(p: &Pos, stats: &mut Stats) -> Verdict {
+    let p = p.clone();
     if p.in_check() {
         stats.exclude("mover in check: no public entry point (covered by the recorded in-search lists)");
         return Ok(());
@@ -100,10 +105,15 @@ fn part_recorded(bytes: &[u8], stats: &mut Stats) -> Verdict {
     let mut s = Src::new(bytes);
     let p = if s.chance(70) { gen::g_small(&mut s).0 } else { gen::g_mix(&mut s).0 };
     let d = 1 + s.below(2) as u8;
+    judge_recorded(&p, d, 30_000, stats)
+}
+
+fn judge_recorded(p: &Pos, d: u8, cap: u64, stats: &mut Stats) -> Verdict {
+    let p = p.clone();
     let b = eng::to_board(&p);
     let mut searcher = Searcher::new();
     searcher.verif.record_qmoves = true;
-    searcher.verif_set_hard_cap(Some(30_000));
+    searcher.verif_set_hard_cap(Some(cap));
     let r = std::panic::catch_unwind(std::panic::AssertUnwindSafe(|| searcher.find_best_move(&b, d, None)));
     if let Err(pn) = &r {
         let msg = crate::panic_text(pn);
@@ -115,7 +125,7 @@ fn part_recorded(bytes: &[u8], stats: &mut Stats) -> Verdict {
     let recs = std::mem::take(&mut searcher.verif.qmoves);
     stats.class("recorded_searches");
     let mut seen = std::collections::HashSet::new();
-    for (board, in_check_flag, moves) in recs.iter() {
+    for (board, in_check_flag, moves, _qply) in recs.iter() {
         let q = eng::board_to_pos(board);
         if !seen.insert(q.clone()) {
             continue;
@@ -141,6 +151,88 @@ fn part_recorded(bytes: &[u8], stats: &mut Stats) -> Verdict {
     Ok(())
 }
 
+thread_local! {
+    static DEEP_CAP: std::cell::Cell<u64> = std::cell::Cell::new(400_000);
+}
+pub const DEEP_MIN_QPLY: u32 = 10;
+
+/// Deep quiescence lines: full middlegame positions searched to depth 1..4 (or the quiescence
+/// search called directly with a generated window), recording only the nodes that lie at least
+/// DEEP_MIN_QPLY plies below the horizon.  "Beyond its nominal depth" has no bound in the
+/// statement, so the move set must be the same however deep below the horizon a node lies.
+fn part_deep(bytes: &[u8], stats: &mut Stats) -> Verdict {
+    let mut s = Src::new(bytes);
+    let p = match s.weighted(&[50, 30, 20]) {
+        0 => gen::g_play(&mut s),
+        1 => gen::g_mix(&mut s).0,
+        _ => gen::pool_pos(s.below(gen::POOL.len())),
+    };
+    if p.legal_moves().is_empty() {
+        stats.exclude("terminal root");
+        return Ok(());
+    }
+    let b = eng::to_board(&p);
+    let mut searcher = Searcher::new();
+    searcher.verif.record_qmoves = true;
+    searcher.verif.record_min_qply = DEEP_MIN_QPLY;
+    searcher.verif_set_hard_cap(Some(DEEP_CAP.with(|c| c.get())));
+    let direct = s.chance(35);
+    let (how, r) = if direct {
+        // window around the static value: both sides keep looking for improvements
+        let ev = flsrc::eval::Evaluator::new().evaluate(&b);
+        let lo = ev - *s.pick(&[0i32, 30, 120, 400, 900, 32767]);
+        let hi = ev + *s.pick(&[1i32, 30, 120, 400, 900, 32767]);
+        let (lo, hi) = (lo.max(-32767), hi.min(32767));
+        (format!("verif_quiesce window ({}, {})", lo, hi), std::panic::catch_unwind(std::panic::AssertUnwindSafe(|| { searcher.verif_quiesce(&b, lo, hi); })))
+    } else {
+        let d = 1 + s.below(4) as u8;
+        (format!("find_best_move depth {}", d), std::panic::catch_unwind(std::panic::AssertUnwindSafe(|| { searcher.find_best_move(&b, d, None); })))
+    };
+    if let Err(pn) = &r {
+        let msg = crate::panic_text(pn);
+        if !msg.contains("node hard cap") {
+            return Err(Failure::new("search-panic", json!({"fen": eng::fen(&p), "how": how, "panic": msg})));
+        }
+        stats.class("deep_search_cut_by_watchdog_(recorded_nodes_still_judged)");
+    }
+    let recs = std::mem::take(&mut searcher.verif.qmoves);
+    let maxq = searcher.verif.max_qply.get();
+    stats.maximum("max_plies_below_horizon_reached", maxq as i64);
+    stats.class("deep_searches");
+    if maxq >= 32 {
+        stats.class("deep_searches_reaching_32_plies_below_horizon");
+    }
+    let mut seen = std::collections::HashSet::new();
+    for (board, in_check_flag, moves, qply) in recs.iter() {
+        let q = eng::board_to_pos(board);
+        if !seen.insert((q.clone(), *qply >= 32)) {
+            continue;
+        }
+        stats.eval();
+        stats.class(match *qply {
+            0..=15 => "deep_nodes_10_15_plies_below_horizon",
+            16..=23 => "deep_nodes_16_23_plies_below_horizon",
+            24..=31 => "deep_nodes_24_31_plies_below_horizon",
+            _ => "deep_nodes_32_or_more_plies_below_horizon",
+        });
+        if *in_check_flag != q.in_check() {
+            return Err(Failure::new("in-check-flag-wrong", json!({"root": eng::fen(&p), "node": eng::fen(&q), "engine_flag": in_check_flag, "reference": q.in_check()})));
+        }
+        let mut got: Vec<String> = moves.iter().map(|m| m.to_algebraic()).collect();
+        if let Err(mut f) = compare_lists(&q, &mut got, "recorded in search_until_quiet") {
+            f.detail["root"] = json!(eng::fen(&p));
+            f.detail["how"] = json!(how);
+            f.detail["plies_below_horizon"] = json!(qply);
+            return Err(f);
+        }
+        if q.in_check() || classify(&q, stats) {
+            stats.nontrivial(&(q.fen4(), *qply));
+        }
+    }
+    stats.sample(|| json!({"root": eng::fen(&p), "how": how, "deepest_plies_below_horizon": maxq, "deep_nodes_recorded": recs.len()}));
+    Ok(())
+}
+
 pub fn fuzz_entry(bytes: &[u8]) -> Verdict {
     let mut st = Stats::new();
     part_api(bytes, &mut st)
@@ -152,8 +244,21 @@ pub fn run(tier: Tier, seed: u64, known: &Known) -> PropRun {
         "the hook records the move list search_until_quiet has chosen (before ordering), together with the engine's own in-check flag".into(),
         "reference rules perft-validated; 'gives check' = opponent's king attacked after the move (direct, discovered, by castling rook, by promotion piece)".into(),
     ];
-    let parts: [(&str, u64, usize, fn(&[u8], &mut Stats) -> Verdict); 2] =
-        [("api", tier.pick(60_000, 3_000_000), 200, part_api), ("recorded", tier.pick(1_500, 60_000), 400, part_recorded)];
+    let cap = tier.pick(400_000u64, 6_000_000u64);
+    fn part_deep_q(b: &[u8], st: &mut Stats) -> Verdict {
+        DEEP_CAP.with(|c| c.set(400_000));
+        part_deep(b, st)
+    }
+    fn part_deep_t(b: &[u8], st: &mut Stats) -> Verdict {
+        DEEP_CAP.with(|c| c.set(6_000_000));
+        part_deep(b, st)
+    }
+    run.extra.insert("deep_part_node_cap".into(), json!(cap));
+    let parts: [(&str, u64, usize, fn(&[u8], &mut Stats) -> Verdict); 3] = [
+        ("api", tier.pick(60_000, 3_000_000), 200, part_api),
+        ("recorded", tier.pick(1_500, 60_000), 400, part_recorded),
+        ("deep", tier.pick(320, 4_000), 700, if tier == Tier::Quick { part_deep_q } else { part_deep_t }),
+    ];
     for (name, cases, max_len, f) in parts {
         let part = Part { name, cases, min_len: 8, max_len, max_shrink: 2000, threads: threads() };
         let (st, fail) = run_part(&part, seed, known, f);
@@ -166,9 +271,29 @@ pub fn run(tier: Tier, seed: u64, known: &Known) -> PropRun {
     run
 }
 
-pub fn replay(part: &str, bytes: &[u8], _case: &Value, stats: &mut Stats) -> Verdict {
+pub fn replay(part: &str, bytes: &[u8], case: &Value, stats: &mut Stats) -> Verdict {
+    // structural replay: the node itself through the public API (when its mover is not in check),
+    // and the recorded search from its root
+    if part != "deep" {
+        if let (Some(root), Some(d)) = (case.get("root").and_then(|x| x.as_str()), case.get("depth").and_then(|x| x.as_u64())) {
+            if let Some(p) = eng::pos_from_saved_fen(root) {
+                return judge_recorded(&p, d as u8, 3_000_000, stats);
+            }
+        }
+        if let Some(fen) = case.get("fen").and_then(|x| x.as_str()) {
+            if let Some(p) = eng::pos_from_saved_fen(fen) {
+                if !p.in_check() {
+                    return judge_api(&p, stats);
+                }
+            }
+        }
+    }
     match part {
         "recorded" => part_recorded(bytes, stats),
+        "deep" => {
+            DEEP_CAP.with(|c| c.set(6_000_000));
+            part_deep(bytes, stats)
+        }
         _ => part_api(bytes, stats),
     }
 }
